@@ -32,10 +32,10 @@ PENDING_REASON = "check under construction in this development: no theorem + cor
 
 
 def main():
-    extra_path = os.path.join(VERIF, "harness", "manifest_extra.json")
     claimed = dict(CLAIMED)
-    if os.path.exists(extra_path):
-        claimed.update(json.load(open(extra_path)))
+    for f in sorted(os.listdir(os.path.join(VERIF, "harness"))):
+        if f.startswith("manifest_extra") and f.endswith(".json"):
+            claimed.update(json.load(open(os.path.join(VERIF, "harness", f))))
     checks = []
     for pid in sorted(claimed):
         c = claimed[pid]
